@@ -9,49 +9,76 @@ from .metamodel import MetaModel, is_num
 
 
 def json_equal(a: Any, b: Any) -> bool:
-    """JSON equality: numbers compare numerically, bool never equals a number, tuples = lists."""
-    if isinstance(a, bool) or isinstance(b, bool):
-        return isinstance(a, bool) and isinstance(b, bool) and a == b
-    if is_num(a) and is_num(b):
-        return a == b
-    if isinstance(a, (list, tuple)) and isinstance(b, (list, tuple)):
-        return len(a) == len(b) and all(json_equal(x, y) for x, y in zip(a, b))
-    if isinstance(a, dict) and isinstance(b, dict):
-        if any(not isinstance(k, str) for k in a) or any(not isinstance(k, str) for k in b):
-            a, b = _strkeys(a), _strkeys(b)  # JSON object keys are strings (integer-keyed maps)
-        return set(a) == set(b) and all(json_equal(a[k], b[k]) for k in a)
-    if isinstance(a, enum.Enum):
-        a = a.value
-    if isinstance(b, enum.Enum):
-        b = b.value
-    return type(a) is type(b) and a == b
+    """JSON equality: numbers compare numerically, bool never equals a number, tuples = lists.  Iterative (an explicit work list): valid
+    values may be nested hundreds of levels deep and the checker must not be the one that runs out of stack."""
+    work = [(a, b)]
+    while work:
+        a, b = work.pop()
+        if isinstance(a, enum.Enum):
+            a = a.value
+        if isinstance(b, enum.Enum):
+            b = b.value
+        if isinstance(a, bool) or isinstance(b, bool):
+            if not (isinstance(a, bool) and isinstance(b, bool) and a == b):
+                return False
+            continue
+        if is_num(a) and is_num(b):
+            if a != b:
+                return False
+            continue
+        if isinstance(a, (list, tuple)) and isinstance(b, (list, tuple)):
+            if len(a) != len(b):
+                return False
+            work.extend(zip(a, b))
+            continue
+        if isinstance(a, dict) and isinstance(b, dict):
+            if any(not isinstance(k, str) for k in a) or any(not isinstance(k, str) for k in b):
+                a, b = _strkeys(a), _strkeys(b)  # JSON object keys are strings (integer-keyed maps)
+            if set(a) != set(b):
+                return False
+            work.extend((a[k], b[k]) for k in a)
+            continue
+        if not (type(a) is type(b) and a == b):
+            return False
+    return True
 
 
 def _strkeys(d: Dict) -> Dict:
     return {(k if isinstance(k, str) else json.dumps(k)): v for k, v in d.items()}
 
 
+def _short(v: Any) -> str:
+    try:
+        return json.dumps(v, default=str)[:100]
+    except (RecursionError, ValueError):
+        return f"<{type(v).__name__} too deep to print>"
+
+
 def json_diff(a: Any, b: Any, path: str = "$") -> Optional[str]:
+    """First difference, found by walking down (iteratively) into the first child that differs."""
     if json_equal(a, b):
         return None
-    if isinstance(a, dict) and isinstance(b, dict):
-        a, b = _strkeys(a), _strkeys(b)
-        for k in a:
-            if k not in b:
-                return f"{path}.{k}: lost (was {json.dumps(a[k], default=str)[:80]})"
-        for k in b:
-            if k not in a:
-                return f"{path}.{k}: appeared ({json.dumps(b[k], default=str)[:80]})"
-        for k in a:
-            d = json_diff(a[k], b[k], f"{path}.{k}")
-            if d:
-                return d
-    if isinstance(a, (list, tuple)) and isinstance(b, (list, tuple)) and len(a) == len(b):
-        for i, (x, y) in enumerate(zip(a, b)):
-            d = json_diff(x, y, f"{path}[{i}]")
-            if d:
-                return d
-    return f"{path}: {json.dumps(a, default=str)[:100]} became {json.dumps(b, default=str)[:100]}"
+    while True:
+        if isinstance(a, dict) and isinstance(b, dict):
+            a, b = _strkeys(a), _strkeys(b)
+            for k in a:
+                if k not in b:
+                    return f"{path}.{k}: lost (was {_short(a[k])[:80]})"
+            for k in b:
+                if k not in a:
+                    return f"{path}.{k}: appeared ({_short(b[k])[:80]})"
+            nxt = next((k for k in a if not json_equal(a[k], b[k])), None)
+            if nxt is None:
+                return f"{path}: differs"
+            a, b, path = a[nxt], b[nxt], f"{path}.{nxt}"
+            continue
+        if isinstance(a, (list, tuple)) and isinstance(b, (list, tuple)) and len(a) == len(b):
+            i = next((i for i, (x, y) in enumerate(zip(a, b)) if not json_equal(x, y)), None)
+            if i is None:
+                return f"{path}: differs"
+            a, b, path = a[i], b[i], f"{path}[{i}]"
+            continue
+        return f"{path}: {_short(a)} became {_short(b)}"
 
 
 def reading_problem(live, mm: MetaModel, result: Any, tau: Dict, j: Any, path: str = "$") -> Optional[str]:
